@@ -54,6 +54,14 @@ def gen(tier, rng):
         for level in range(4):
             add(api="deflate_stateless", inp=a, level=level, wrap=0, lbuf=3, calls=[[n, n * 2 + 100, 2, 0]], meta={"family": "oneshot-full-flush", "pair": len(scns) + 1})
             add(api="deflate_stateless", inp=b, level=level, wrap=0, lbuf=3, calls=[[200, 1000, 0, 1]], meta={"family": "oneshot-final"})
+    # (g) the same, but the one-shot calls are made on ONE context and level buffer without re-initialisation (the documented way of appending blocks)
+    xs = [("text", 500), ("random", 300), ("runs", 2000), ("zeros", 4096), ("random", 98304), ("records", 30000), ("lowent", 9000)]
+    for i, (cls, n) in enumerate(xs if tier == "quick" else xs + [("text", 70000), ("ff", 70000), ("random", 66000)]):
+        a, b, c = igz.corpus(rng, cls, n), igz.corpus(rng, "text", 2000), igz.corpus(rng, ["random", "records", "zeros"][i % 3], 700)
+        for level in range(4):
+            for lbuf in ([0, 3] if level else [3]):
+                add(api="deflate_stateless_multi", inp=a + b, level=level, wrap=0, lbuf=lbuf, prefill=i % 3, calls=[[n, n * 2 + 600, 2, 0], [2000, 5000, 0, 1]], meta={"family": "oneshot-append-same-context"})
+                add(api="deflate_stateless_multi", inp=b + a + c, level=level, wrap=0, lbuf=lbuf, prefill=i % 3, calls=[[2000, 5000, 2, 0], [n, n * 2 + 600, 2, 0], [700, 2000, 0, 1]], meta={"family": "oneshot-append-same-context"})
     return scns
 
 def run(tier, replay=None):
@@ -75,6 +83,17 @@ def run(tier, replay=None):
                 recs.append({"scn": cs["scn"], "api": 9, "level": s["level"], "wrap": 0, "hist_bits": 0, "lbuf": 3, "dict": [], "inp": cs["inp"],
                              "calls": [{"out": out}], "end": {"why": "oneshot", "state": "END"}, "expect_ret": 0, "complete_supply": True})
                 by[cs["scn"]] = dict(cs, calls=[{"out": out}])
+    # several one-shot calls on one context: the appended outputs must form one valid stream of the concatenated input
+    for s in scns:
+        if s["api"] != 4: continue
+        cl = by[s["scn"]]["calls"]
+        recs[:] = [r for r in recs if r["scn"] != s["scn"]]
+        if len(cl) == len(s["calls"]) and all(c["ret"] == 0 for c in cl):
+            out = [b for c in cl for b in c["out"]]
+            recs.append({"scn": s["scn"], "api": 9, "level": s["level"], "wrap": 0, "hist_bits": 0, "lbuf": s["lbuf"], "dict": [], "inp": s["inp"],
+                         "calls": [{"out": out}], "end": {"why": "oneshot", "state": "END"}, "expect_ret": 0, "complete_supply": True})
+        else:
+            v.violation("one-shot-append:call-failed", "one-shot calls on one context: %s" % [(c["ret"], c["c"], c["p"]) for c in cl] + (" (fault)" if "fault" in by[s["scn"]] else ""), igz.replay_record(s))
     res, tw = igz.judge("trace/TraceDeflate", recs, wd, "c14", shards=14)
     igz.report(v, scns + extra, res, by)
     fp = sum(r["flush_points"] for r in res.values()); full = sum(r["full_points"] for r in res.values())
